@@ -17,6 +17,12 @@ def sym_message(ex, t, name, depth=2, lists=2, nil_ok=True, overrides=None):
         if key in overrides:
             s.f[i] = overrides[key]
             continue
+        hook = overrides.get('#hook')
+        if hook is not None:
+            hv = hook(ex, key, f['name'], f['t'])
+            if hv is not None:
+                s.f[i] = hv[0]
+                continue
         s.f[i] = sym_field(ex, f['t'], key, depth, lists, overrides)
     p = Ptr(Cell(s), 'v')
     if nil_ok:
